@@ -160,13 +160,19 @@ def build(reg):
         requires=["len(payload) < 2**62", QI],
         modifies=QMOD + ["ghost.last_key", "ghost.submitted"],
         ensures=[
-            # RFC 6455 5.2: FIN|RSV|opcode, MASK|length (7 / 7+16 / 7+64 bit, minimal), masking key, payload
-            "implies(not %s, ghost.submitted == old(ghost.submitted) + enc_header(fin, rsv, opcode, False, %s) + payload)"
-            % (MASKED, N),
+            # RFC 6455 5.2: FIN|RSV|opcode, MASK|length (7 / 7+16 / 7+64 bit, minimal), masking key, payload.
+            # (one clause per length form: the same statement as a single clause is decided by z3's sequence solver on
+            #  some namings of the formula and given up on others -- the split makes every clause a one-path goal)
+        ] + [
+            "implies(not %s and %s, ghost.submitted == old(ghost.submitted) + enc_header(fin, rsv, opcode, False, %s) + payload)"
+            % (MASKED, rng, N) for rng in ("%s <= 125" % N, "125 < %s and %s <= 0xFFFF" % (N, N), "%s > 0xFFFF" % N)
+        ] + [
             # every frame of a masking endpoint carries a fresh 4-octet key and the payload XORed with it from offset 0
-            "implies(%s, len(ghost.last_key) == 4 and ghost.submitted == old(ghost.submitted) + "
+            "implies(%s and %s, len(ghost.last_key) == 4 and ghost.submitted == old(ghost.submitted) + "
             "enc_header(fin, rsv, opcode, True, %s) + ghost.last_key + "
-            "(xormask(payload, ghost.last_key, 0) if (%s > 0 and self.applyMask) else payload))" % (MASKED, N, N),
+            "(xormask(payload, ghost.last_key, 0) if (%s > 0 and self.applyMask) else payload))" % (MASKED, rng, N, N)
+            for rng in ("%s <= 125" % N, "125 < %s and %s <= 0xFFFF" % (N, N), "%s > 0xFFFF" % N)
+        ] + [
             QI,
             "implies(not %s, ghost.last_key == old(ghost.last_key))" % MASKED],
         **common)
